@@ -351,6 +351,16 @@ class Foot:
                         self.env[l['id']] = ('ptr', p[0], (l['t'].get('pointee') or {}))
                 self.sub_lvalue(e['lhs'])
             return
+        if k == 'un' and e.get('op') in ('++', '--'):
+            l = strip(e['e'])
+            cur = self.env.get(l.get('id')) if l.get('k') == 'ref' and l.get('rk') == 'local' else None
+            if cur is not None and cur[0] == 'ptr':
+                # a cursor into the buffer stepped by one element
+                esz = (cur[2] or {}).get('size') or 0
+                if not esz:
+                    raise Unsupported('pointer step over an incomplete type at %s' % loc_str(e))
+                self.env[l['id']] = ('ptr', cur[1] + Aff(esz if e['op'] == '++' else -esz, 0), cur[2])
+                return
         if k == 'bin' and e.get('op') == '<<' and 'cv' in strip(e['rhs']):
             inner = e['lhs']
             while isinstance(inner, dict) and inner.get('k') == 'cast':
